@@ -24,7 +24,7 @@ RULE = ("G-DAG pipelines (N<=2 all, N=3 chain/diamond/fan family; decorated with
         "x cache type {simple, lru, hybrid, disk} x histories up to length L over the alphabet {call(output, cut in arg_combinations, values in {1,2} per name, and the same with each defaulted root argument omitted, full_output F/T), "
         "update_defaults, update_bound, replace(function with another body)}; every step is checked against the uncached twin and against the documented root-argument-key "
         "cache model. quick: L=2 without mutations, and L=3 for the default/bound-decorated N=2 pipelines where the third step directly follows a mutation "
-        "(call; mutation; call); thorough: L=3 everywhere. Map part: cached vs uncached map with repeated input values, sequential and deferred executor")
+        "(call; mutation; call); thorough: L=3 everywhere. Map part: cached vs uncached map with repeated input values, sequential and deferred executor; three maps of a cached function with map-scope resources delivered through resources_variable")
 ASSUMPTIONS = ["a cached pipeline and its uncached twin are rebuilt from the same spec for every path (no shared state)",
                "the documented key model (key = output name + values of the ROOT arguments) is used only to CLASSIFY a mismatch as the known cache-key design finding; the verdict comes from the uncached twin",
                "HybridCache durations are virtual (time.perf_counter/monotonic patched to +1.0 per read inside pipefunc modules)",
@@ -90,6 +90,10 @@ def apply_step(p, spec_state, step, is_cached):
                 _, out, b = step
                 p[out].update_bound(dict(b), overwrite=False)
                 return ("ret", None)
+            if kind == "fdefaults":  # a default changed through ONE function (not through the pipeline)
+                _, out, d = step
+                p[out].update_defaults(dict(d), overwrite=False)
+                return ("ret", None)
             if kind == "replace":
                 _, idx = step
                 f = spec_state["funcs"][idx]
@@ -118,6 +122,14 @@ def mutate_spec(spec, step):
         for f in s["funcs"]:
             if step[1] in f["outs"]:
                 f.setdefault("bound", {}).update(step[2])
+    elif step[0] == "fdefaults":
+        for f in s["funcs"]:
+            if (step[1] in f["outs"]) or (isinstance(step[1], (list, tuple)) and list(step[1]) == f["outs"]):
+                for p_, v in step[2].items():
+                    if "sigdef" in f and p_ in f["sigdef"]:
+                        f["sigdef"][p_] = v
+                    else:
+                        f.setdefault("pfdef", {})[p_] = v
     elif step[0] == "replace":
         s["funcs"][step[1]]["tag"] = s["funcs"][step[1]]["name"] + "v2"
     return s
@@ -247,6 +259,10 @@ def mutation_steps(spec):
         for p_ in {**f.get("sigdef", {}), **f.get("pfdef", {})}:
             if p_ not in prodn:
                 steps.append(["defaults", {p_: "d2"}])
+                # through the function that owns the default - only where that keeps the pipeline's defaults consistent (no
+                # other function with a default of its own for the same root)
+                if not any(g is not f and p_ in {**g.get("sigdef", {}), **g.get("pfdef", {})} for g in spec["funcs"]):
+                    steps.append(["fdefaults", f["outs"][0] if len(f["outs"]) == 1 else tuple(f["outs"]), {p_: "d3"}])
         for p_ in f.get("bound", {}):
             steps.append(["bound", f["outs"][0] if len(f["outs"]) == 1 else tuple(f["outs"]), {p_: "b2"}])
     # de-duplicate
@@ -626,6 +642,8 @@ def plan(tier, seed):
     if thorough:
         for spec in spec_family("N3-all"):
             units.append(("N3-all-depth2-simple", ("bfs", {"spec": spec, "cached": [True] * 3, "cache": "simple"}, 2, False)))
+    for ct in ("simple", "lru", "hybrid", "disk"):
+        units.append(("map-cached-vs-uncached", ("mapres", {"cache": ct})))
     for pipe in c03.PIPES:
         for ct in ("simple", "lru", "hybrid", "disk"):
             units.append(("map-cached-vs-uncached", ("map", {"pipe": pipe, "cache": ct})))
@@ -647,6 +665,41 @@ def plan(tier, seed):
     return out
 
 
+def map_resources_case(cfg):
+    """a cached mapped function that receives map-scope resources (computed from the WHOLE input) through
+    resources_variable: three maps on one pipeline whose inputs share element values but differ as a whole"""
+    from pipefunc import PipeFunc, Pipeline
+    from pipefunc.resources import Resources
+    _vclock()
+    folder = boot.mkscratch("c09r-") if cfg["cache"] == "disk" else None
+    out = []
+    try:
+        def f(x, res):
+            terms.log_call("f", f"{x},cpus={res.cpus}")
+            return f"f({x},cpus={res.cpus})"
+
+        kw = {"cache_dir": folder, "lru_shared": False} if cfg["cache"] == "disk" else ({"shared": False} if cfg["cache"] in ("lru", "hybrid") else {})
+        with warnings.catch_warnings(), contextlib.redirect_stdout(io.StringIO()):
+            warnings.simplefilter("ignore")
+            pf = PipeFunc(f, "y", mapspec="x[i] -> y[i]", cache=True, resources=lambda kw_: Resources(cpus=len(kw_["x"])),
+                          resources_variable="res", resources_scope="map")
+            p = Pipeline([pf], cache_type=cfg["cache"], cache_kwargs=kw)
+            for xs in (["a", "b"], ["a", "b", "c"], ["b", "b", "a", "d"]):
+                r = p.map({"x": list(xs)}, parallel=False, storage="dict")
+                got = [str(v) for v in r["y"].output]
+                want = [f"f({x},cpus={len(xs)})" for x in xs]
+                if got != want:
+                    out.append(({"kind": "value-mismatch", "stage": "map-resources", "cache": cfg["cache"]},
+                                f"cached map over {xs} with map-scope resources (cpus=len(x)) returned {got}, uncached gives {want}"))
+                    break
+    except Exception as e:  # noqa: BLE001
+        out.append((findings.exc_sig(e, stage="map-resources", cache=cfg["cache"]), f"cached map with map-scope resources raised {type(e).__name__}: {str(e)[:120]}"))
+    finally:
+        if folder:
+            shutil.rmtree(folder, ignore_errors=True)
+    return out
+
+
 def run_unit(unit):
     acc = Acc()
     if unit[0] == "bfs":
@@ -655,6 +708,15 @@ def run_unit(unit):
         acc.stratum("bfs-" + cfg["cache"])
         if all(cfg["cached"]) and cfg["cache"] == "simple" and len(cfg["spec"]["funcs"]) == 3:
             acc.sample({"spec": cfg["spec"], "cached": cfg["cached"], "cache": cfg["cache"], "depth": depth, "step_alphabet": n})
+    elif unit[0] == "mapres":
+        _, cfg = unit
+        acc.case(hash(("mapres", str(cfg))))
+        acc.states += 3
+        acc.transitions += 3
+        acc.traces += 1
+        acc.stratum("map-with-map-scope-resources")
+        for sig, text in map_resources_case(cfg):
+            acc.violation(sig, {"cfg": cfg, "mapres": True}, text)
     elif unit[0] == "mapthr":
         from .. import explore
         _, cfg, bound = unit[:3]
@@ -702,9 +764,11 @@ def replay(art):
     if art.get("mapdfs"):
         from .. import explore
         return [s for s, _ in map_case_deferred(art["cfg"], explore.Chooser(art["choices"]))]
+    if art.get("mapres"):
+        return [s for s, _ in map_resources_case(art["cfg"])]
     if art.get("map"):
         return [s for s, _ in map_case(art["cfg"])]
-    hist = [[tuple(x) if isinstance(x, list) and s[0] == "bound" and i == 1 else x for i, x in enumerate(s)] for s in art["hist"]]
+    hist = [[tuple(x) if isinstance(x, list) and s[0] in ("bound", "fdefaults") and i == 1 else x for i, x in enumerate(s)] for s in art["hist"]]
     vs, _ = run_history(art["cfg"], hist)
     return [s for s, _ in vs]
 
